@@ -6,4 +6,7 @@ namespace Lungo
 
 theorem tie_atomicWrite : Gen.atomicWriteSteps = Expected.atomicWriteSteps := by decide
 
+/-- the temporary name the calls operate on is `path + ".tmp"` (≠ `path`: hypothesis `hne` of the C05 theorems) -/
+theorem tie_atomicWriteTmp : Gen.atomicWriteTmpDistinct = Expected.atomicWriteTmpDistinct := by decide
+
 end Lungo
